@@ -74,11 +74,11 @@ theorem seek_new (h : Header) (payload : Bytes) (hv : h.version ≠ vOld) :
 theorem fromExisting_encode (h : Header) (payload : Bytes) (hw : h.WF) :
     fromExisting (encode h payload) =
       match Havok.read payload with
-      | none => .panic
+      | none => .none
       | some objs =>
         match Havok.extract objs with
         | .bones l => .ok l
-        | .panic => .panic
+        | .reject => .none
         | .unmodelled => .unmodelled := by
   rcases hw with ⟨hv, hg⟩ | ⟨hv, hg⟩
   · simp only [fromExisting, havokOffset_old h payload hv hg, seek_old h payload hv]
